@@ -94,4 +94,17 @@ Theorem C11_line_start_overflow_is_free_witness :
   end.
 Proof. exact break_overflow_is_free'. Qed.
 
+(* finding F43 on the search model (witness, by computation): two solutions of equal penalty, every measured length within the
+   narrower limit in both runs, and the limit decides which one is returned - clause 1 of the property is false of the search *)
+From PasfmtVerif Require Import Model.WrapSearch Model.WrapFormat Proofs.WrapTieProofs.
+Theorem C11_equal_penalty_solutions_chosen_by_limit_F43 :
+  ss_fuel_err tie_narrow = false /\
+  ss_fuel_err tie_wide = false /\
+  penalty_of tie_narrow 4 = Some 12 /\
+  penalty_of tie_wide 4 = Some 12 /\
+  forallb (fun l : N => l <=? 70) (lengths_of tie_narrow) = true /\
+  forallb (fun l : N => l <=? 70) (lengths_of tie_wide) = true /\
+  decs_eqb (decisions_of tie_narrow) (decisions_of tie_wide) = false.
+Proof. exact equal_penalty_solutions_chosen_by_limit. Qed.
+
 
